@@ -136,6 +136,11 @@ def gen_cases(tier, seed):
         cases.append({"id": "free-running-%d" % k, "sig": ["free-running", k], "kind": "free", "k": k, "threads": 4, "iters": 60 if tier == "quick" else 400})
     # the verifying side: URLs of two signers checked under both certificates by several threads at once (yields injected), and verification
     # histories that contain a certificate that cannot be read
+    # signing and verifying after the binding layer has been used for other things in the same process (module-level tables are shared)
+    for pk, preface in enumerate(PREFACES):
+        for who in ("sp", "idp"):
+            cases.append({"id": "after-%s-%s" % (preface, who), "sig": ["after-traffic", preface, who], "kind": "inputs", "alg": ["rsa-sha256", "rsa-sha1"][pk % 2], "who": who,
+                          "relay": "rs", "preface": preface})
     for k in range(3 if tier == "quick" else 20):
         cases.append({"id": "verify-threads-%d" % k, "sig": ["verify-threads", k], "kind": "verify-threads", "own_worker": True, "all_envs": True, "k": k, "rounds": 12 if tier == "quick" else 60})
     for k in range(2 if tier == "quick" else 10):
@@ -183,7 +188,37 @@ def check_url(url, owner, viol, what, counters, entity=None):
     return True
 
 
+PREFACES = ["artifact-redirect", "artifact-redirect-with-relaystate", "signed-response-redirect", "post-form", "soap", "unsigned-redirect", "artifact-binding"]
+
+
+def run_preface(ctx, who, preface):
+    """other, legitimate uses of the encoders by the same entity before it signs: none of them may change what a later signature covers"""
+    from saml2_tophat import BINDING_HTTP_POST, BINDING_SOAP, BINDING_HTTP_ARTIFACT
+    ent = ctx.ents[who]
+    art = "AAQAAMFbLinlXaCM+FIxiDwGOLAy2T71gbpO7ZhNzAgEANlB90ECfpNEVLg="
+    if preface == "artifact-redirect":
+        ent.use_http_get(art, fed.SSO_REDIRECT, "", typ="SAMLart")
+    elif preface == "artifact-redirect-with-relaystate":
+        ent.use_http_get(art, fed.SSO_REDIRECT + "?x=1", "rs-art", typ="SAMLart")
+    elif preface == "signed-response-redirect":
+        signed_url(ctx.ents["idp"], ctx.resp, "r", "rsa-sha512", response=True)
+    elif preface == "post-form":
+        ent.apply_binding(BINDING_HTTP_POST, ctx.req, fed.SSO_POST, "rs")
+    elif preface == "soap":
+        ent.apply_binding(BINDING_SOAP, ctx.req, fed.SSO_POST)
+    elif preface == "unsigned-redirect":
+        ent.apply_binding(BINDING_HTTP_REDIRECT, ctx.req, fed.SSO_REDIRECT, "rs")
+    elif preface == "artifact-binding":
+        ent.apply_binding(BINDING_HTTP_ARTIFACT, art, fed.SSO_REDIRECT, "rs")
+
+
 def run_inputs(case, ctx, viol, counters, sigs):
+    if case.get("preface"):
+        try:
+            run_preface(ctx, case["who"], case["preface"])
+            counters["prefaces_run"] = counters.get("prefaces_run", 0) + 1
+        except Exception as exc:
+            counters["preface_raised:%s:%s" % (case["preface"], type(exc).__name__)] = 1
     ent = ctx.ents[case["who"]]
     is_resp = case["who"] == "idp"
     msg = ctx.resp if is_resp else ctx.req
